@@ -408,7 +408,7 @@ pub fn run_case(rep: &mut Report, c: &Case) {
     // that rarely passes, masked writes, a discarding shader): the same
     // geometry with every fragment written — another scene of the quantifier,
     // in which a fragment outside the viewport or a NaN depth cannot hide.
-    let restrictive = c.test == Some(Ordering::Equal) || !c.cw || !c.dw || c.discard || (c.test.is_some() && c.verts.len() % 2 == 0);
+    let restrictive = c.test.is_some() || !c.cw || !c.dw || c.discard;
     for which in 0..(if restrictive { 3 } else { 2 }) {
         let permissive = which == 2;
         let ctx = if permissive { Context { depth_test: None, color_write: true, depth_write: true, ..c.ctx() } } else { c.ctx() };
